@@ -84,7 +84,7 @@ class LiteDRAMAXI2NativeW(Module):
         # - Decremented when data is read
         w_buffer_queue   = Signal()
         w_buffer_dequeue = Signal()
-        w_buffer_level   = Signal(max=buffer_depth + 1)
+        w_buffer_level   = Signal(max=buffer_depth + 2) # buffered w_buffer holds buffer_depth + 1 beats.
         self.comb += [
             w_buffer_queue.eq(port.cmd.valid & port.cmd.ready & port.cmd.we),
             w_buffer_dequeue.eq(w_buffer.source.valid & w_buffer.source.ready)
